@@ -542,19 +542,36 @@ def d3_saveload(ck, mod):
                    for x in ast.walk(r.value)):
                 helpers.add(n.name)
 
-    def path_key(expr):
+    recognised = set()      # literal key nodes that were understood as naming a file
+
+    def path_key(expr, depth=6):
+        """Manifest key of the file a path expression names: D['key'] or
+        helper('key') somewhere in it, looking through names with a single
+        reaching definition (the key is a literal, so the value of such a
+        name cannot denote another entry)."""
         if expr is None:
             return None
-        for n in ast.walk(fs.expand(expr)):
+        for n in walk_expr(expr):
             if isinstance(n, ast.Subscript) and isinstance(n.value, ast.Name) and n.value.id == D and isinstance(const_value(n.slice), str):
+                recognised.add(n.slice)
                 return const_value(n.slice)
             if isinstance(n, ast.Call) and isinstance(n.func, ast.Name) and n.func.id in helpers:
                 a = n.args[0] if n.args else (n.keywords[0].value if n.keywords else None)
                 if isinstance(const_value(a), str):
+                    recognised.add(a)
                     return const_value(a)
+            if isinstance(n, ast.Name) and isinstance(n.ctx, ast.Load) and n.id != D and n.id not in helpers and depth > 0:
+                ds = defs_of(fs, n)
+                d = next(iter(ds)) if len(ds) == 1 else None
+                v = fs.def_value(d, n.id) if d is not None and d not in ('PARAM', 'UNBOUND') else None
+                if v is not None:
+                    k = path_key(v, depth - 1)
+                    if k is not None:
+                        return k
         return None
 
     written = {}        # key -> (anchor node, [writer calls])
+    opened = set()      # open(...) calls whose file was identified
     for w in walk_local(save):
         if isinstance(w, ast.With):
             for item in w.items:
@@ -562,7 +579,11 @@ def d3_saveload(ck, mod):
                 if isinstance(ce, ast.Call) and _last(ce) == 'open':
                     key = path_key(arg_or_kw(ce, 0, 'file'))
                     if key is None:
+                        if any(isinstance(c, ast.Call) and call_name(c) in ('json.dump', 'json.dumps')
+                               for b in w.body for c in ast.walk(b)):
+                            opened.add(ce)      # the manifest itself
                         continue
+                    opened.add(ce)
                     h = item.optional_vars.id if isinstance(item.optional_vars, ast.Name) else None
                     body = [c for s in w.body for c in ast.walk(s) if isinstance(c, ast.Call)]
                     uses = [c for c in body if h and any(isinstance(a, ast.Name) and a.id == h
@@ -582,11 +603,13 @@ def d3_saveload(ck, mod):
         ck.missing(rule, 'manifest read with json.load in load')
         return
     PM = {sj.targets[0].id}
+    remapped = set()    # id() of the manifest uses inside a recognised key-preserving re-mapping
+    remaps = set()
     grew = True
     while grew:
         grew = False
         for s in walk_local(load):
-            if not (isinstance(s, ast.Assign) and len(s.targets) == 1 and isinstance(s.targets[0], ast.Name)) or s.targets[0].id in PM:
+            if not (isinstance(s, ast.Assign) and len(s.targets) == 1 and isinstance(s.targets[0], ast.Name)) or id(s) in remaps:
                 continue
             v = s.value
             key = gen = None
@@ -602,6 +625,8 @@ def d3_saveload(ck, mod):
                     isinstance(it.func.value, ast.Name) and it.func.value.id in PM and isinstance(tg, ast.Tuple) and \
                     len(tg.elts) == 2 and isinstance(key, ast.Name) and u(key) == u(tg.elts[0]):
                 PM.add(s.targets[0].id)
+                remapped.add(id(it.func.value))
+                remaps.add(id(s))
                 grew = True
     read = {}           # key -> [Subscript nodes]
     for x in walk_local(load):
@@ -609,10 +634,45 @@ def d3_saveload(ck, mod):
                 and isinstance(x.ctx, ast.Load):
             read.setdefault(const_value(x.slice), []).append(x)
 
-    ck.check(set(written) == keys, rule + '.keys', mod, fd, 'MSM.save', 'declared %s written %s' % (sorted(keys), sorted(written)),
-             'every declared file is written', 'save declares files it does not write (or vice versa): %s' % sorted(keys ^ set(written)))
-    ck.check(set(read) == keys, rule + '.keys', mod, load, 'MSM.load', 'read %s' % sorted(read),
-             'load reads exactly the files save writes', 'load and save disagree on the file keys: %s' % sorted(keys ^ set(read)))
+    # A declared key that is not seen written (read) is a violation only if the
+    # function shows no trace of it: a file opened under a path that could not be
+    # identified, the manifest handed to / iterated by something else, or the key
+    # spelled somewhere the rule did not understand mean "not recognised".
+    def unexplained(fn, dict_names, known_nodes, missing_keys):
+        out = []
+        for n in walk_local(fn):
+            if isinstance(n, ast.Constant) and n.value in missing_keys and n not in known_nodes:
+                out.append('key %r used at line %s' % (n.value, getattr(n, 'lineno', '?')))
+            if isinstance(n, ast.Name) and n.id in dict_names and isinstance(n.ctx, ast.Load):
+                par = mod.parent.get(n)
+                gp = mod.parent.get(par) if par is not None else None
+                if isinstance(par, ast.Subscript) and par.value is n and isinstance(const_value(par.slice), str):
+                    continue
+                if isinstance(par, ast.Call) and call_name(par) in ('json.dump', 'json.dumps') and par.args and par.args[0] is n:
+                    continue
+                if isinstance(par, ast.Attribute) and par.attr == 'update' and isinstance(gp, ast.Call) and gp.func is par:
+                    continue
+                if id(n) in remapped:
+                    continue
+                out.append('`%s` used at line %s' % (n.id, getattr(n, 'lineno', '?')))
+        return out
+
+    lost = keys - set(written)
+    why = unexplained(save, {D}, set(fd.value.keys) | recognised, lost) if lost else []
+    why += ['file opened under an unidentified path at line %s' % c.lineno for c in calls_in(save)
+            if lost and _last(c) == 'open' and c not in opened]
+    if lost and why:
+        ck.missing(rule + '.keys', 'writer of %s in save not recognised (%s)' % (sorted(lost), '; '.join(why[:4])))
+    else:
+        ck.check(set(written) == keys, rule + '.keys', mod, fd, 'MSM.save', 'declared %s written %s' % (sorted(keys), sorted(written)),
+                 'every declared file is written', 'save declares files it does not write (or vice versa): %s' % sorted(keys ^ set(written)))
+    lost = keys - set(read)
+    why = unexplained(load, PM, {x.slice for xs in read.values() for x in xs}, lost) if lost else []
+    if lost and why:
+        ck.missing(rule + '.keys', 'reader of %s in load not recognised (%s)' % (sorted(lost), '; '.join(why[:4])))
+    else:
+        ck.check(set(read) == keys, rule + '.keys', mod, load, 'MSM.load', 'read %s' % sorted(read),
+                 'load reads exactly the files save writes', 'load and save disagree on the file keys: %s' % sorted(keys ^ set(read)))
 
     # ---- the object that load returns and how it is built
     rets = [r for r in returns_of(load) if r.value is not None]
@@ -636,17 +696,29 @@ def d3_saveload(ck, mod):
         if ok:
             cfgname = peel(fl, star[0].value)
 
-    def consumers(x):
+    path_funcs = ('os.path.join', 'os.path.abspath', 'os.path.normpath', 'os.path.expanduser', 'os.fspath', 'str',
+                  'pathlib.Path', 'Path')
+
+    def consumers(x, depth=4):
         """Calls that consume the file named by the manifest read x: the call
-        the path is an argument of, or - for open(...) as h - the calls in
-        the with body that take h."""
+        the path is an argument of (path-building calls and temporaries that
+        hold the path are looked through), or - for open(...) as h - the
+        calls in the with body that take h."""
         n, call = x, None
         while n is not None and not isinstance(n, ast.stmt):
             n = mod.parent.get(n)
-            if isinstance(n, ast.Call):
+            if isinstance(n, ast.Call) and call_name(n) not in path_funcs:
                 call = n
                 break
         if call is None:
+            if depth > 0 and isinstance(n, ast.Assign) and len(n.targets) == 1 and isinstance(n.targets[0], ast.Name):
+                first, out = None, []
+                for m in walk_local(load):
+                    if isinstance(m, ast.Name) and m.id == n.targets[0].id and isinstance(m.ctx, ast.Load) and defs_of(fl, m) == {n}:
+                        s2, cs = consumers(m, depth - 1)
+                        first = first or s2
+                        out.extend(cs)
+                return first, out
             return None, []
         if _last(call) != 'open':
             return fl.stmt(call), [call]
@@ -847,22 +919,32 @@ def d5_timescales(ck):
               'one extra eigenvalue is requested for the stationary mode', 'n_times + 1 eigenvalues of T must be requested')
     # formula on the returned value
     rets = [x for x in returns_of(fn) if x.value is not None]
-    tt = se.targets[0] if isinstance(se, ast.Assign) and se.value is e and len(se.targets) == 1 else None
-    if len(rets) != 1 or not (isinstance(tt, (ast.Tuple, ast.List)) and len(tt.elts) == 2 and isinstance(tt.elts[0], ast.Name)):
+    # role: the eigenvalues are element 0 of what eigenspectrum returns -
+    # `vals, vecs = eigenspectrum(..)`, `s = eigenspectrum(..)` used as s[0], or `vals = eigenspectrum(..)[0]`
+    E = EN = None
+    others = set()
+    tt = se.targets[0] if isinstance(se, ast.Assign) and len(se.targets) == 1 else None
+    if tt is not None and se.value is e:
+        if isinstance(tt, (ast.Tuple, ast.List)) and len(tt.elts) == 2 and isinstance(tt.elts[0], ast.Name):
+            E = EN = tt.elts[0].id
+            others = {x.id for x in tt.elts[1:] if isinstance(x, ast.Name)}
+        elif isinstance(tt, ast.Name):
+            E, EN = '%s[0]' % tt.id, tt.id
+    elif isinstance(tt, ast.Name) and isinstance(se.value, ast.Subscript) and se.value.value is e and const_value(se.value.slice) == 0:
+        E = EN = tt.id
+    if len(rets) != 1 or E is None:
         ck.missing(rule + '.formula', 'returned value / unpacking of eigenspectrum in calc_imp_times')
     else:
-        E = tt.elts[0].id
         val = rets[0].value
         anchor = fi.stmt(peel(fi, val)) if isinstance(val, ast.Name) and peel(fi, val) is not val else rets[0]
         forms = ['-%s / np.log(%s[1:])' % (lag, E), '-(%s / np.log(%s[1:]))' % (lag, E), '%s / -np.log(%s[1:])' % (lag, E),
                  '-1 * %s / np.log(%s[1:])' % (lag, E), '-1.0 * %s / np.log(%s[1:])' % (lag, E), '%s / np.log(%s[1:]) * -1' % (lag, E),
                  '-%s / np.log(%s)[1:]' % (lag, E), '(-%s / np.log(%s))[1:]' % (lag, E), 'np.negative(%s) / np.log(%s[1:])' % (lag, E),
                  '-np.divide(%s, np.log(%s[1:]))' % (lag, E), 'np.divide(-%s, np.log(%s[1:]))' % (lag, E)]
-        others = {x.id for x in tt.elts[1:] if isinstance(x, ast.Name)}
-        verdict = classify(fi.expand(val), forms, scope={lag, E} | others)
+        verdict = classify(fi.expand(val), forms, scope={lag, EN} | others)
         if verdict[0] == 'match':
             leaves = leaf_names(fi, val)
-            if not all(defs_of(fi, n) == ({'PARAM'} if n.id == lag else {se}) for n in leaves if n.id in (lag, E)):
+            if not all(defs_of(fi, n) == ({'PARAM'} if n.id == lag else {se}) for n in leaves if n.id in (lag, EN)):
                 verdict = ('far', 0, None)
         ck.decide(verdict, rule + '.formula', mod, anchor or rets[0], Q, 'returns %s' % _short(fi.xu(val)),
                   't_k = -lag / log(lambda_k) for k >= 1 (stationary eigenvalue skipped)',
@@ -961,30 +1043,33 @@ def d5_ensemble(ck):
                 return n
             n = mod.parent.get(n)
         return None
-    adv = [s for s in assigns_to(fn, P) if isinstance(s, ast.Assign) and loop_of(s) is not None and P in names_loaded(s.value)]
+    # (the new state may be computed into a temporary first: nxt = op.rmatvec(p); p = nxt)
+    adv = [s for s in assigns_to(fn, P) if isinstance(s, ast.Assign) and loop_of(s) is not None
+           and P in names_loaded(fi.expand(s.value, stop=(P,)))]
     if not adv:
         ck.missing(rule + '.left', 'statement that advances the populations `%s` inside a loop' % P)
         return
     ops = set()
     verdicts = []
     for s in adv:
-        v = fi.expand(s.value, stop=(P,))
+        orig = peel(fi, s.value)        # node of the analysed tree that computes the new state
+        v = fi.expand(orig, stop=(P,))
         if isinstance(v, ast.Call) and isinstance(v.func, ast.Attribute) and v.func.attr in ('rmatvec', 'matvec', 'dot', 'rmatmat', 'matmat') \
                 and len(v.args) == 1 and not v.keywords:
-            recv, arg, f = s.value.func.value if isinstance(s.value, ast.Call) and isinstance(s.value.func, ast.Attribute) else None, v.args[0], v.func.attr
+            recv, arg, f = orig.func.value if isinstance(orig, ast.Call) and isinstance(orig.func, ast.Attribute) else None, v.args[0], v.func.attr
             if recv is None:
                 verdicts.append('far')
             elif u(arg) == P and f == 'rmatvec' and isinstance(recv, ast.Name):
                 ops.add(recv)
                 verdicts.append('match')
-            elif u(recv) == P and f == 'dot' and is_param(fi, v.args[0], T):
+            elif u(v.func.value) == P and f == 'dot' and is_param(fi, orig.args[0], T):
                 verdicts.append('match')        # p.dot(T) = p T
             elif u(arg) == P and f in ('matvec', 'dot', 'matmat'):
                 verdicts.append('near')         # T p
             else:
                 verdicts.append('far')
         elif isinstance(v, ast.BinOp) and isinstance(v.op, ast.MatMult):
-            if u(v.left) == P and u(v.right) == T and params_intact(fi, s.value, {T}):
+            if u(v.left) == P and u(v.right) == T and params_intact(fi, orig, {T}):
                 verdicts.append('match')
             elif u(v.right) == P:
                 verdicts.append('near')
@@ -1088,16 +1173,30 @@ def d5_ensemble(ck):
     recorded, rotated = 0, 0
     for s in adv:
         loop = loop_of(s)
+        # the new state is P after s, or - for `P = t` - the temporary t from its definition on
+        alias = s.value if isinstance(s.value, ast.Name) and len(defs_of(fi, s.value)) == 1 else None
+        alias_site = next(iter(defs_of(fi, alias))) if alias is not None else None
+        if alias_site in ('PARAM', 'UNBOUND'):
+            alias = alias_site = None
+
+        def new_state_from(e):
+            """statement after which the state mentioned by e is the new one (None: e does not mention the state)"""
+            if e is None:
+                return None
+            if P in names_loaded(fi.expand(e, stop=(P,))):
+                return s
+            if alias is not None and any(isinstance(n, ast.Name) and n.id == alias.id and fi.same_value(n, alias) for n in walk_expr(e)):
+                return alias_site
+            return None
         recs = []
         for x in ast.walk(loop):
             if isinstance(x, ast.Call) and isinstance(x.func, ast.Attribute) and x.func.attr == 'append' and u(x.func.value) == OBS \
-                    and x.args and P in names_loaded(fi.expand(x.args[0], stop=(P,))):
-                recs.append(fi.stmt(x))
+                    and x.args and new_state_from(x.args[0]) is not None and fi.stmt(x) is not None:
+                recs.append((fi.stmt(x), new_state_from(x.args[0])))
         for st, t in subscript_stores(loop, OBS):
-            if getattr(st, 'value', None) is not None and P in names_loaded(fi.expand(st.value, stop=(P,))):
-                recs.append(st)
-        recs = [r for r in recs if r is not None]
-        if any(fi.cfg.reachable(s, r, avoiding=[loop]) for r in recs):
+            if new_state_from(getattr(st, 'value', None)) is not None:
+                recs.append((st, new_state_from(st.value)))
+        if any(fi.cfg.reachable(frm, r, avoiding=[loop]) for r, frm in recs):
             recorded += 1
         elif recs:
             rotated += 1        # recorded before the advance: a rotated loop, not decided here
@@ -1141,4 +1240,9 @@ def check(ck):
     check_no_arg_mutation(ck, 'C16.D6.inputs-unmodified', [
         (MS, 'MSM.fit'), (TS, 'implied_timescales'), (TS, 'calc_imp_times'),
         (SD, 'synthetic_ensemble'), (TM, 'eigenspectrum')])
+    # added after the bug hunt (DESIGN.md 11.2b, G6): every global name read in the
+    # estimator modules is bound (an `except <UndefinedName>` turns any error into NameError)
+    from . import extra
+    n = extra.check_undefined_names(ck, 'C16.D7.undefined-names', [ck.repo.mod(r) for r in (MS, TS, TM, SD)])
+    ck.floor('C16.D7.undefined-names', n, 4, 'estimator modules scanned with symtable')
     return EXPLANATION
